@@ -72,6 +72,7 @@ type Unit struct {
 	Have     []Clause          // intermediate facts over the locals at a return, proved in order and then assumed
 	Wants    map[string]bool   // optional postcondition groups of callees this unit asks for
 	Witness  map[string]string // existsT variable -> spec expression (over locals at return) that instantiates it in proofs
+	UsesDef  []string // lemmas / axioms made available only to the definedness obligations of this unit
 	Trusted  []Clause // postconditions assumed at call sites but not proved from the body (paper lemmas); always reported
 }
 
@@ -198,7 +199,7 @@ func (p *Program) collectLits(u *Unit, body ast.Node) {
 	})
 }
 
-var clauseRe = regexp.MustCompile(`^(requires|ensures|modifies|loop|takes|public|assumed|bounded|returns|ghost|props|domain|defined|source|target|implements|uses|trusted|witness|wants|have)\b(\[[A-Z0-9,]+\])?\s*(.*)$`)
+var clauseRe = regexp.MustCompile(`^(requires|ensures|modifies|loop|takes|public|assumed|bounded|returns|ghost|props|domain|defined|source|target|implements|uses|trusted|witness|wants|have|usesdef)\b(\[[A-Z0-9,]+\])?\s*(.*)$`)
 
 func (p *Program) specErr(where, msg string) {
 	p.SpecErr = append(p.SpecErr, where+": "+msg)
@@ -236,7 +237,7 @@ func (p *Program) parseSpecs(pkg *packages.Package) {
 			first := strings.Fields(t)[0]
 			first = strings.SplitN(first, "[", 2)[0]
 			switch first {
-			case "func", "closure", "abstract", "requires", "ensures", "modifies", "loop", "takes", "public", "assumed", "bounded", "define", "axiom", "returns", "ghost", "props", "domain", "defined", "source", "target", "implements", "uses", "lemma", "predicate", "trusted", "witness", "wants", "have":
+			case "func", "closure", "abstract", "requires", "ensures", "modifies", "loop", "takes", "public", "assumed", "bounded", "define", "axiom", "returns", "ghost", "props", "domain", "defined", "source", "target", "implements", "uses", "lemma", "predicate", "trusted", "witness", "wants", "have", "usesdef":
 				joined = append(joined, line{t, l.where})
 			default:
 				if len(joined) == 0 {
@@ -395,6 +396,10 @@ func (p *Program) parseSpecs(pkg *packages.Package) {
 							cur.Witness = map[string]string{}
 						}
 						cur.Witness[strings.TrimSpace(fs[0])] = strings.TrimSpace(fs[1])
+					}
+				case "usesdef":
+					for _, x := range strings.Split(rest, ",") {
+						cur.UsesDef = append(cur.UsesDef, strings.TrimSpace(x))
 					}
 				case "have":
 					if c, ok := mk(rest); ok {
